@@ -41,6 +41,54 @@ CHECKS = {
             "model belief, cross-checked by unmerged enumeration; AutoCellRatio.is_supported modelled as the "
             "documented determined-once status; pure pixel changes need not be noticed.",
             "DESIGN.md 3/C15, B.4"),
+    "C06": ("exploration",
+            "exhaustive product-grid enumeration of draw() executions on a terminal model",
+            "Bounded exhaustive exploration of the real draw() (both APIs) on the terminal model: every tuple of "
+            "renderable class / image style x terminal identity x render method x size 1..3x1..3 x padding/alignment x "
+            "frames/loops/cache x terminals x every initial cursor row x tty settings, plus the full size-validation "
+            "tables (28k draws quick, 545k thorough, 1.5M frame boundaries). Each frame boundary and the final screen "
+            "are judged cell by cell against the frame drawn alone at the documented offset on a tagged pre-filled "
+            "screen, together with scroll count, cursor position and visibility, and SGR state.",
+            "Terminal = vlib/vterm model. ITerm2 WHOLE renders taller than the terminal on iTerm2/WezTerm are excluded "
+            "as a documented limitation. Sizes and terminals bounded as stated in the evidence.",
+            "DESIGN.md 3/C06"),
+    "C07": ("fault_enumeration",
+            "exhaustive fault-point enumeration (every write/flush/sleep/render point x every write prefix)",
+            "Fault enumeration on the real draw(): for 122/356 configurations (both APIs, 13 style/terminal/method "
+            "combinations, still and animated, tty settings, dynamic size, chunked kitty transmissions), every "
+            "write/flush/sleep/render point before clean-up x {KeyboardInterrupt, RuntimeError} x {instead, after, "
+            "every write prefix x rest lost/buffered}. Judged on cursor visibility, SGR, parser / kitty-chunk / ST "
+            "termination, termios attributes, RenderData finalization, image size/tell(), KeyboardInterrupt semantics.",
+            "Clean-up boundary decided from the payloads of the fault-free run. Equivalent cut positions inside one "
+            "payload are represented by the first and last of the run (always in quick, only for writes over 700 "
+            "characters in thorough). Faults at termios calls belong to C13. Faults only at environment-call boundaries.",
+            "DESIGN.md 3/C07"),
+    "C12": ("exploration",
+            "exhaustive choice-tree search over terminal reply schedules x responder configurations",
+            "Exhaustive exploration of the real query code (query_terminal/read_tty, get_fg_bg_colors, "
+            "get_terminal_name_version, get_cell_size, Kitty/ITerm2/BlockImage.is_supported, auto_image_class, "
+            "AutoImage, from_file) against a virtual tty: for every responder configuration (subsets of supported "
+            "queries, all 64 width combinations of rgb: replies x value patterns x ST/BEL, identity strings, kitty "
+            "replies, DA1 variants, ioctl pixel size present/zero, swap, queries disabled, mute terminal, every order of "
+            "the operations) every schedule of the choice tree over atomic replies (1..k replies per wake-up, delay 0 / "
+            "1 ms / 0.98 x remaining timeout). An independent reference judges the reported values, that no bytes remain "
+            "unread, nothing is echoed, elapsed virtual time <= timeout per query, attributes restored.",
+            "Terminal and timing are the vtty model with atomic in-order replies. Identity strings limited to "
+            "name(version) / name version. Combinations the docs leave undecided are not judged. Late replies are "
+            "outside the premise: only time, no exception and attributes are judged for them.",
+            "DESIGN.md 3/C12"),
+    "C13": ("fault_enumeration",
+            "exhaustive fault enumeration at every environment call of every reply schedule",
+            "Fault enumeration on the virtual tty over initial attribute sets (6 quick / 8 thorough) and operations "
+            "(query_terminal, read_tty across timeout/min/echo/predicate kinds, read_tty_all, get_cell_size, the "
+            "two-phase getters, KittyImage.is_supported, Renderable.draw with echo suppressed): for every reply / "
+            "keystroke schedule the fault-free run is judged, then one exception (KeyboardInterrupt / OSError / "
+            "termios.error, BrokenPipeError at stdout points) is injected instead of and right after every numbered "
+            "environment call (each tty call, the caller's more(), every stdout write/flush/sleep of draw including its "
+            "finally block). Oracle: struct termios afterwards == before, byte for byte.",
+            "Faults strike at environment-call boundaries only. Excluded by definition: a fault instead of the restoring "
+            "tcsetattr itself. read_tty combinations documented to wait forever are not enumerated. Single faults only.",
+            "DESIGN.md 3/C13"),
 }
 
 PENDING_REASON = "check not built yet in this round (design in DESIGN.md section 3); not claimed"
